@@ -33,7 +33,9 @@ SOLVER = "z3-%s (python API, QF_BV)" % z3.get_version_string()
 ASSUME_COMMON = [
     "llsym: clang++-14 -std=c++17 IR of the unmodified headers under /repo is executed; x86-64 SysV data layout; "
     "pointers are (object, offset) pairs and every load/store/GEP is checked against its object",
-    "llsym: exceptions end the path at __cxa_throw (cleanups are not run; no catch clause is on any executed path, checked)",
+    "llsym: an exception that no catch clause up the IR call stack matches ends the path at __cxa_throw (cleanups are not run: nothing executes "
+    "afterwards); one that a clause matches is unwound to its handler (landing pads, resume, __cxa_begin_catch / __cxa_end_catch / __cxa_rethrow "
+    "modelled in engine/llsym/core.py; validated natively by the EH self-test of c16_cc_stream_truncation)",
     "CodedOutputStream's implicit precondition buffer_size >= MAX_VARINT64_BYTES (10) is assumed for WriteVarInt64 (N=12 instead of N=8): with a "
     "smaller buffer the unchecked encoder overruns the vector even on valid data; the 64-bit varint readers run at N=12 in quick and at N=8 "
     "as well in thorough (safe since the FillBufferOrThrow fix)",
